@@ -60,7 +60,7 @@ CHECKS = {
     'C08': dict(
         level='exploration', technique='exhaustive token soups (all sequences up to length 3), every single-token mutation of seed documents, every short raw string at every site of a template, named shapes; outcome classification under a watchdog; total rendering of accepted inputs',
         text='Every sequence of up to three tokens over the DBML token alphabet, every delete / duplicate / swap / replace-by-each-token mutation at every token of the seed documents, every string up to length 2 (quick) / 3 (thorough) over 18 punctuation-heavy '
-             'characters inserted unescaped at 44 sites (names, types, notes, comments, defaults, expressions, properties, colours, top level) and 55 named shapes (incl. number literals beyond the interpreter's integer conversion limit) are parsed; the outcome must be a Database, a parse error, a library error or SyntaxError, within 20 s; '
+             'characters inserted unescaped at 44 sites (names, types, notes, comments, defaults, expressions, properties, colours, top level) and 55 named shapes (incl. number literals beyond the integer conversion limit of the interpreter) are parsed; the outcome must be a Database, a parse error, a library error or SyntaxError, within 20 s; '
              'for every accepted input .dbml and .sql of the database and of every element must evaluate.',
         note='Bounded alphabets and lengths: the clause "any input text whatsoever" is decided for these spaces only. Parenthesis nesting <= 6.',
         design='DESIGN.md §3 C08'),
@@ -84,7 +84,7 @@ CHECKS = {
         level='model_checking', technique='explicit-state exploration of call histories over the shared grammar state (warm and cold start, snapshot state graph, census), result-pair reachability + mutation oracle, stateless preemption-bounded schedule exploration with a controlled thread scheduler, fresh-process cross-check',
         text='Every history of up to 2 calls over 39 calls (13 documents x 3 option sets) and up to 3 (quick) / 4 (thorough) over a reduced alphabet is executed from the warm and from the cold shared state; every outcome must equal the isolated outcome, earlier results must stay intact, '
              'and the census of live pydbml objects must return to the baseline. Every ordered pair of results must share no mutable object and survive exhaustive mutation of the other. Pairs of calls run in two threads under every schedule with at most one preemption at any pydbml '
-             'line event (warm, and cold-start for some pairs) and must give their isolated outcomes; cold-start pairs are also preempted at the writes to shared grammar elements (every 8th write of three pairs in the quick tier, every write in the thorough tier); process-wide interpreter settings (recursion limit, switch interval, integer conversion limit, pyparsing's global switches) must be unchanged after every call; the thorough tier adds every two-preemption schedule at call granularity and three-thread schedules. Every call is repeated in a fresh interpreter; a free-running multi-thread pass is supplementary.',
+             'line event (warm, and cold-start for some pairs) and must give their isolated outcomes; cold-start pairs are also preempted at the writes to shared grammar elements (every 8th write of three pairs in the quick tier, every write in the thorough tier); process-wide interpreter settings (recursion limit, switch interval, integer conversion limit, the global switches of pyparsing) must be unchanged after every call; the thorough tier adds every two-preemption schedule at call granularity and three-thread schedules. Every call is repeated in a fresh interpreter; a free-running multi-thread pass is supplementary.',
         note='Scheduling points are line events in <repo>/pydbml frames; pyparsing frames run untraced between them. The shared-state snapshot (verif/heap.py) excludes display-name caches and is reported as evidence; the verdict is outcome equality, object sharing and the census.',
         design='DESIGN.md §3 C11'),
     'C12': dict(
